@@ -999,3 +999,20 @@ mutant("c20-xlim-makespan-always", "C20", "R20.e", PGC,
 refactor("c20-r-key-lambda", "C20", GIF,
          "        for frame in sorted(os.listdir(frames_dir), key=_frame_number)",
          "        for frame in sorted(os.listdir(frames_dir), key=lambda f: int(f.split('_')[-1].split('.')[0]))")
+
+# ------------------------------------------------------------------ C11
+COMP = "job_shop_lib/dispatching/feature_observers/_composite_feature_observer.py"
+FFAC = "job_shop_lib/dispatching/feature_observers/_factory.py"
+ISS = "job_shop_lib/dispatching/feature_observers/_is_scheduled_observer.py"
+mutant("c11-axis0", "C11", "R11.a", COMP,
+       "            feature_type: np.concatenate(features, axis=1)", "            feature_type: np.concatenate(features, axis=0)")
+mutant("c11-names-reversed", "C11", "R11.a", COMP,
+       "    def _set_column_names(self):\n        for observer in self.feature_observers:", "    def _set_column_names(self):\n        for observer in reversed(self.feature_observers):")
+mutant("c11-registry-swap", "C11", "R11.c", FFAC,
+       "        FeatureObserverType.IS_SCHEDULED: IsScheduledObserver,", "        FeatureObserverType.IS_SCHEDULED: IsCompletedObserver,")
+mutant("c11-operation-machine-id", "C11", "R11.d", REM,
+       "                self.features[FeatureType.MACHINES][operation.machines, 0] += 1", "                self.features[FeatureType.MACHINES][operation.machine_id, 0] += 1")
+mutant("c12-isscheduled-no-zero-ops", "C12", "R12.a", ISS,
+       "    def update(self, scheduled_operation: ScheduledOperation):",
+       "    def reset(self):\n        self.set_features_to_zero(exclude=FeatureType.OPERATIONS)\n\n    def update(self, scheduled_operation: ScheduledOperation):",
+       "seeded C11-s3 shape: the scheduled flags survive a reset")
